@@ -111,7 +111,7 @@ def run(ctx):
     allc = placement_cases()
     r = random.Random(f"{ctx.seed}/c04")
     if ctx.quick:
-        allc = r.sample(allc, min(700, len(allc)))
+        allc = r.sample(allc, min(1500, len(allc)))
     todo = []
     for (pl, rot) in allc:
         variants = [(0, False), (1, False), (0, True)] if not ctx.quick else [r.choice([(0, False), (1, False), (0, True)])]
@@ -124,7 +124,7 @@ def run(ctx):
         todo.append({"files": {"/w/m.djinni": dup}, "root": "/w/m.djinni", "meta": ("dup", dup)})
     todo.append({"files": {"/w/m.djinni": '@import "lib.djinni"\nx = enum { a; }', "/w/lib.djinni": "x = record { }"}, "root": "/w/m.djinni", "meta": ("dup", "import")})
     # random larger programs
-    for i in range(ctx.n(300, 4000)):
+    for i in range(ctx.n(800, 8000)):
         rr = random.Random(f"{ctx.seed}/c04/r{i}")
         g = front.Gen(rr, p_bad=0.12, max_decls=7, dup_names=rr.random() < 0.4, comments=False)
         R = front.Render(rr, 'min')
